@@ -906,8 +906,14 @@ def _odp_shape(node, pos):
     """node: ("frame", text) | ("group", [nodes])"""
     if node[0] == "frame":
         pos[0] += 1
-        return (f'<draw:frame svg:x="1cm" svg:y="{pos[0]}cm" svg:width="8cm" svg:height="1cm"><draw:text-box>'
-                f'<text:p>{node[1]}</text:p></draw:text-box></draw:frame>')
+        y, x, style = (node[2], node[3], node[4]) if len(node) > 2 else (f"{pos[0]}cm", "1cm", "")
+        st = f' text:style-name="{style}"' if style else ""
+        ya = f' svg:y="{y}"' if y is not None else ""
+        return (f'<draw:frame svg:x="{x}"{ya} svg:width="8cm" svg:height="1cm"><draw:text-box>'
+                f'<text:p{st}>{node[1]}</text:p></draw:text-box></draw:frame>')
+    if node[0] == "notes":
+        return ('<presentation:notes><draw:frame svg:x="1cm" svg:y="1cm"><draw:text-box>'
+                f'<text:p>{node[1]}</text:p></draw:text-box></draw:frame></presentation:notes>')
     return "<draw:g>" + "".join(_odp_shape(n, pos) for n in node[1]) + "</draw:g>"
 
 def make_odp(slides):
@@ -931,11 +937,35 @@ def _ods_cell(v, repeat=1):
         return f'<table:table-cell{rep} office:value-type="float" office:value="{v}"><text:p>{v}</text:p></table:table-cell>'
     return f'<table:table-cell{rep} office:value-type="string"><text:p>{v}</text:p></table:table-cell>'
 
+def _ods_row(row):
+    if isinstance(row, tuple) and row and row[0] == "wrap":
+        return f"<table:{row[1]}>" + "".join(_ods_row(r) for r in row[2]) + f"</table:{row[1]}>"
+    if isinstance(row, dict):
+        rep = f' table:number-rows-repeated="{row["repeat"]}"' if row.get("repeat", 1) != 1 else ""
+        return f"<table:table-row{rep}>" + "".join(_ods_cell(v, r) for r, v in row["cells"]) + "</table:table-row>"
+    return "<table:table-row>" + "".join(_ods_cell(v) for v in row) + "</table:table-row>"
+
+
+def ods_expand(rows):
+    """Cell values of a sheet spec after wrapper flattening and repeat expansion, row by row (what a reader sees)."""
+    out = []
+    for row in rows:
+        if isinstance(row, tuple) and row and row[0] == "wrap":
+            out += ods_expand(row[2])
+        elif isinstance(row, dict):
+            vals = [v for r, v in row["cells"] for _ in range(max(r, 0))]
+            out += [list(vals) for _ in range(max(row.get("repeat", 1), 0))]
+        else:
+            out.append(list(row))
+    return out
+
+
 def make_ods(sheets):
-    """sheets: list of (name, rows); row = list of cell values (None, bool, int, float, str)."""
+    """sheets: list of (name, rows); row = list of cell values (None, bool, int, float, str) | dict with repeats |
+    ("wrap", "table-header-rows" | "table-rows" | "table-row-group", [rows])."""
     tables = []
     for name, rows in sheets:
-        body = "".join("<table:table-row>" + "".join(_ods_cell(v) for v in row) + "</table:table-row>" for row in rows)
+        body = "".join(_ods_row(row) for row in rows)
         tables.append(f'<table:table table:name="{name}">{body}</table:table>')
     return _odf_zip("application/vnd.oasis.opendocument.spreadsheet",
                     f'<?xml version="1.0" encoding="UTF-8"?><office:document-content {ODF_NS} office:version="1.2"><office:body>'
@@ -943,6 +973,230 @@ def make_ods(sheets):
 
 
 TOKEN_RE = re.compile(r"T[a-z]\d+x\d+(?:a\d+)?q")
+
+
+# ----------------------------------------------------------------------------- (b) ODP / ODS unit assembly
+def _odf_content_root(data):
+    import xml.etree.ElementTree as ET
+    with zipfile.ZipFile(io.BytesIO(data)) as z:
+        return ET.fromstring(z.read("content.xml"))
+
+
+def odp_terms(data):
+    """content.xml of an .odp -> Coq shape trees (one per draw:page), read off the parsed XML by tag only; positions
+    are _parse_odf_length_to_px values replaced by their rank (order-isomorphic), paragraph texts by the real helpers."""
+    from sharepoint2text.parsing.extractors.open_office import odp_extractor as ox
+    root = _odf_content_root(data)
+    body = root.find(".//office:body/office:presentation", ox.NS)
+    pages = body.findall("draw:page", ox.NS) if body is not None else []
+    frame_tag, g_tag = ox._DRAW_FRAME_TAG, "{%s}g" % ox.NS["draw"]
+    vals = set()
+    for fr in root.iter(frame_tag):
+        vals.add(ox._parse_odf_length_to_px(fr.get(ox._ATTR_SVG_Y)))
+        vals.add(ox._parse_odf_length_to_px(fr.get(ox._ATTR_SVG_X)))
+    if any(v != v for v in vals):
+        return None          # NaN positions: the sort is not a total order, outside the model
+    rank = {v: i for i, v in enumerate(sorted(vals))}
+
+    def shape(el):
+        if el.tag == frame_tag:
+            tb = el.find(ox._DRAW_TEXT_BOX_TAG)
+            paras = [] if tb is None else [(ox._get_text_recursive(p_), p_.get(ox._ATTR_TEXT_STYLE_NAME, ""))
+                                           for p_ in ox._iter_paragraphs(tb)]
+            return ("(ShFrame (mkFrame " + coq_Z(rank[ox._parse_odf_length_to_px(el.get(ox._ATTR_SVG_Y))]) + " "
+                    + coq_Z(rank[ox._parse_odf_length_to_px(el.get(ox._ATTR_SVG_X))]) + " "
+                    + coq_list([pair(coq_str(a), coq_str(b)) for a, b in paras]) + "))")
+        if el.tag == g_tag:
+            return "(ShGroup " + coq_list([shape(c) for c in el]) + ")"
+        return "ShOther"
+    return coq_list([coq_list([shape(c) for c in pg]) for pg in pages])
+
+
+def ods_terms(data):
+    """content.xml of an .ods -> Coq row trees (one per table:table), read off the parsed XML by tag only; cell values
+    by the real _extract_cell_value."""
+    from sharepoint2text.parsing.extractors.open_office import ods_extractor as sx
+    root = _odf_content_root(data)
+    body = root.find(".//office:body/office:spreadsheet", sx.NS)
+    tables = body.findall("table:table", sx.NS) if body is not None else []
+
+    def node(el):
+        if el.tag == sx._TABLE_ROW_TAG:
+            cells = []
+            for c in el.findall("table:table-cell", sx.NS):
+                typed, disp = sx._extract_cell_value(c)
+                cells.append(pair(coq_Z(int(c.get(sx._ATTR_TABLE_REPEAT_COLS, "1"))), coq_opt(None if typed is None else disp, coq_str)))
+            return "(RRow " + coq_Z(int(el.get(sx._ATTR_TABLE_REPEAT_ROWS, "1"))) + " " + coq_list(cells) + ")"
+        if el.tag in sx._TABLE_ROW_WRAPPER_TAGS:
+            return "(RWrap " + coq_list([node(c) for c in el]) + ")"
+        return "ROther"
+    return coq_list([pair(coq_str(tb.get(sx._ATTR_TABLE_NAME, "")), coq_list([node(c) for c in tb])) for tb in tables])
+
+
+def odf_inventory(ctx):
+    """Fail-closed shape inventory (ast) of the repository code behind coq/C03/Odf.v: the two tree iterators must be
+    `for child in <param>: if child.tag == A: yield child / elif child.tag ==|in B: yield from <self>(child)`, and
+    _extract_slide / _extract_sheet must consume them (one stable .sort keyed on (item[0], item[1]), no reverse)."""
+    import ast, inspect, textwrap
+    from sharepoint2text.parsing.extractors.open_office import odp_extractor as ox, ods_extractor as sx
+
+    def iterator_shape(fn):
+        f = ast.parse(textwrap.dedent(inspect.getsource(fn))).body[0]
+        body = [s_ for s_ in f.body if not (isinstance(s_, ast.Expr) and isinstance(s_.value, ast.Constant))]
+        if len(body) != 1 or not isinstance(body[0], ast.For) or body[0].orelse:
+            return None
+        loop = body[0]
+        if not (isinstance(loop.iter, ast.Name) and loop.iter.id == f.args.args[0].arg and isinstance(loop.target, ast.Name)):
+            return None
+        var = loop.target.id
+        if len(loop.body) != 1 or not isinstance(loop.body[0], ast.If):
+            return None
+        out, node = [], loop.body[0]
+        while node is not None:
+            tst = node.test
+            ok = (isinstance(tst, ast.Compare) and len(tst.ops) == 1 and isinstance(tst.ops[0], (ast.Eq, ast.In))
+                  and isinstance(tst.left, ast.Attribute) and tst.left.attr == "tag" and isinstance(tst.left.value, ast.Name)
+                  and tst.left.value.id == var and isinstance(tst.comparators[0], ast.Name))
+            if not ok or len(node.body) != 1 or not isinstance(node.body[0], ast.Expr):
+                return None
+            act = node.body[0].value
+            if isinstance(act, ast.Yield) and isinstance(act.value, ast.Name) and act.value.id == var:
+                kind = "yield"
+            elif (isinstance(act, ast.YieldFrom) and isinstance(act.value, ast.Call) and isinstance(act.value.func, ast.Name)
+                  and act.value.func.id == f.name and len(act.value.args) == 1 and isinstance(act.value.args[0], ast.Name)
+                  and act.value.args[0].id == var):
+                kind = "recurse"
+            else:
+                return None
+            out.append((kind, tst.comparators[0].id))
+            if not node.orelse:
+                node = None
+            elif len(node.orelse) == 1 and isinstance(node.orelse[0], ast.If):
+                node = node.orelse[0]
+            else:
+                return None
+        return out
+
+    a = iterator_shape(ox._iter_slide_frames)
+    ctx.obligation("inventory:odp _iter_slide_frames has the modelled shape (frame -> yield, draw:g -> recurse, else nothing)",
+                   a == [("yield", "_DRAW_FRAME_TAG"), ("recurse", "_DRAW_G_TAG")], f"shape: {a}")
+    b = iterator_shape(sx._iter_sheet_rows)
+    ctx.obligation("inventory:ods _iter_sheet_rows has the modelled shape (row -> yield, wrapper -> recurse, else nothing)",
+                   b == [("yield", "_TABLE_ROW_TAG"), ("recurse", "_TABLE_ROW_WRAPPER_TAGS")], f"shape: {b}")
+    es = ast.parse(textwrap.dedent(inspect.getsource(ox._extract_slide)))
+    calls = [n for n in ast.walk(es) if isinstance(n, ast.Call)]
+    uses_iter = any(isinstance(c.func, ast.Name) and c.func.id == "_iter_slide_frames" for c in calls)
+    sorts = [c for c in calls if isinstance(c.func, ast.Attribute) and c.func.attr == "sort"] + \
+            [c for c in calls if isinstance(c.func, ast.Name) and c.func.id == "sorted"]
+    good_sort = False
+    if len(sorts) == 1 and [k.arg for k in sorts[0].keywords] == ["key"] and isinstance(sorts[0].keywords[0].value, ast.Lambda):
+        lam = sorts[0].keywords[0].value
+        good_sort = (isinstance(lam.body, ast.Tuple) and len(lam.body.elts) == 2 and
+                     all(isinstance(e, ast.Subscript) and isinstance(e.slice, ast.Constant) and e.slice.value == i
+                         for i, e in enumerate(lam.body.elts)))
+    ctx.obligation("inventory:odp _extract_slide walks _iter_slide_frames and sorts once by (y, x), ascending, stable",
+                   uses_iter and good_sort, f"uses_iter={uses_iter} sorts={len(sorts)} good_sort={good_sort}")
+    sh = ast.parse(textwrap.dedent(inspect.getsource(sx._extract_sheet)))
+    uses_rows = any(isinstance(n, ast.Call) and isinstance(n.func, ast.Name) and n.func.id == "_iter_sheet_rows" for n in ast.walk(sh))
+    consts = sorted({n.value for n in ast.walk(sh) if isinstance(n, ast.Constant) and isinstance(n.value, int) and n.value > 1})
+    ctx.obligation("inventory:ods _extract_sheet walks _iter_sheet_rows; the only size threshold is 100 (as modelled)",
+                   uses_rows and consts == [100], f"uses_rows={uses_rows} int constants>1: {consts}")
+    wr = sorted(t_.split("}")[1] for t_ in sx._TABLE_ROW_WRAPPER_TAGS)
+    ctx.obligation("inventory:ods row wrapper tags are header-rows / table-rows / row-group",
+                   wr == ["table-header-rows", "table-row-group", "table-rows"], str(wr))
+
+
+def run_odf(ctx):
+    from sharepoint2text.parsing.extractors.open_office import odp_extractor as ox, ods_extractor as sx
+    rng = ctx.rng
+    res = REPO / "sharepoint2text" / "tests" / "resources"
+    odp_cases, ods_cases, odp_info, ods_info = [], [], [], []
+
+    def do_odp(data, label, marks=(), n=None):
+        try:
+            c = next(ox.read_odp(io.BytesIO(data), "x.odp"))
+        except Exception:  # noqa — failure surface: C01
+            return
+        terms = odp_terms(data)
+        us, ft = observe(c)
+        ctx.case(("odf-odp", label), len(us) >= 2, kind="odf:odp")
+        oracle_units(ctx, "odf:odp", "OdpContent", us, ft, True, marks, n, {"document": label})
+        if terms is None:
+            return
+        slides = [(s_.slide_number, s_.title, list(s_.body_text), list(s_.other_text)) for s_ in c.slides]
+        odp_cases.append(pair(terms, coq_list([pair(coq_Z(a), coq_str(b), cstrs(c_), cstrs(d)) for a, b, c_, d in slides]),
+                              coq_list([pair(coq_Z(a), coq_str(b)) for a, b in us])))
+        odp_info.append(label)
+
+    def do_ods(data, label):
+        try:
+            c = next(sx.read_ods(io.BytesIO(data), "x.ods"))
+        except Exception:  # noqa
+            return
+        us, ft = observe(c)
+        ctx.case(("odf-ods", label), len(us) >= 2, kind="odf:ods")
+        sheets = [(s_.name, s_.text) for s_ in c.sheets]
+        ods_cases.append(pair(ods_terms(data), coq_list([pair(coq_str(a), coq_str(b)) for a, b in sheets]),
+                              coq_list([pair(coq_Z(a), coq_str(b)) for a, b in us])))
+        ods_info.append(label)
+
+    for p_ in sorted(glob.glob(str(res / "**" / "*.od[ps]"), recursive=True)) + sorted(glob.glob(str(res / "**" / "*.ot[ps]"), recursive=True)):
+        if "password" in p_:
+            continue
+        data = open(p_, "rb").read()
+        (do_odp if p_[-1] == "p" else do_ods)(data, "fixture:" + os.path.relpath(p_, res))
+    # generated decks: positions (equal keys, missing, units, negative), styles, groups, notes
+    lens = ["1cm", "2cm", "2cm", "0.5in", "10mm", "-1cm", "3.5cm", "20pt", None, "", "abc"]
+    styles = ["", "Title", "MyTitle1", "TitleText", "BodyText", "Body_20_x", "P1", "Outline"]
+    for i in range(ctx.n(60, 600)):
+        n = rng.randint(1, 5)
+        slides, marks = [], []
+        for j in range(1, n + 1):
+            nodes = []
+
+            def fr(tag):
+                marks.append((f"Mk{j}{tag}{len(marks)}q", j))
+                return ("frame", marks[-1][0] + rng.choice(["", " tail", "  "]), rng.choice(lens), rng.choice(lens[:8]) or "1cm",
+                        rng.choice(styles))
+            for _ in range(rng.randint(0, 3)):
+                nodes.append(fr("t") if rng.random() < 0.6 else ("group", [fr("g") for _ in range(rng.randint(1, 2))]
+                                                                  + ([("group", [fr("n")])] if rng.random() < 0.3 else [])))
+            if rng.random() < 0.3:
+                nodes.append(("notes", f"Note{j}"))
+            slides.append(nodes)
+        do_odp(make_odp(slides).getvalue(), ("generated", i), marks, n)
+    # generated workbooks: typed cells, repeats, wrappers, trailing blanks
+    vals = ["a", "b c", 0, 1, 2.5, False, True, None, None, "0", ""]
+    for i in range(ctx.n(60, 600)):
+        sheets = []
+        for j in range(1, rng.randint(1, 4) + 1):
+            rows = []
+            for _ in range(rng.randint(0, 5)):
+                if rng.random() < 0.5:
+                    rows.append([rng.choice(vals) for _ in range(rng.randint(0, 4))])
+                else:
+                    rows.append({"repeat": rng.choice([1, 1, 2, 3, 0, 101, 150]),
+                                 "cells": [(rng.choice([1, 1, 2, 3, 0, 101, 120]), rng.choice(vals + [None, None])) for _ in range(rng.randint(0, 4))]})
+                    if rows[-1]["repeat"] > 3 and any(v is not None for _, v in rows[-1]["cells"]):
+                        rows[-1]["cells"] = [(min(r_, 3), v) for r_, v in rows[-1]["cells"]]      # keep sizes small
+                        rows[-1]["repeat"] = rng.choice([2, 101]) if len(rows[-1]["cells"]) <= 2 else 2
+            if rows and rng.random() < 0.4:
+                cut = rng.randint(0, len(rows))
+                rows = [("wrap", "table-header-rows", rows[:cut]), ("wrap", "table-row-group", [("wrap", "table-rows", rows[cut:])])]
+            sheets.append((rng.choice([f"S{j}", "", " x "]), rows))
+        do_ods(make_ods(sheets).getvalue(), ("generated", i))
+    pre = ("From Coq Require Import ZArith List.\nFrom S2T Require Import Lib.PyStr C03.Lib C03.Model C03.Odf C03.Corr.\n"
+           "Import ListNotations.\n")
+    ok, failing, log = coq_eval_shards(ctx, "odp", pre, "odp_case", odp_cases, shard=40, timeout=600,
+                                       ty="list (list shape) * list (Z * str * list str * list str) * list (Z * str)")
+    ctx.traces += len(odp_cases)
+    ctx.obligation("correspondence:ODP _iter_slide_frames/sort/classification/page loop model==implementation", ok and not failing,
+                   (f"{len(failing)} disagreements, first: {odp_info[failing[0]]!r} " if failing else "") + log[:800])
+    ok, failing, log = coq_eval_shards(ctx, "ods", pre, "ods_case", ods_cases, shard=40, timeout=600,
+                                       ty="list (str * list row_node) * list (str * str) * list (Z * str)")
+    ctx.traces += len(ods_cases)
+    ctx.obligation("correspondence:ODS _iter_sheet_rows/repeats/trimming/text model==implementation", ok and not failing,
+                   (f"{len(failing)} disagreements, first: {ods_info[failing[0]]!r} " if failing else "") + log[:800])
 
 
 # ----------------------------------------------------------------------------- (c) end to end
@@ -1246,7 +1500,7 @@ def run_end_to_end(ctx):
             lines = tx.split("\n")
             body = "\n".join(lines[1:]) if lines and lines[0].strip() == name else tx
             got = Counter(body.split())
-            want = Counter(disp(v) for row in rows for v in row if v is not None and disp(v) != "")
+            want = Counter(disp(v) for row in ods_expand(rows) for v in row if v is not None and disp(v) != "")
             if got != want:
                 miss, extra = want - got, got - want
                 ctx.finding(f"{where}:sheet-text-not-covered-exactly", f"sheet {num} ({name}): cell texts missing from its unit "
@@ -1260,9 +1514,24 @@ def run_end_to_end(ctx):
         sheets, shapes = [], []
         for j in range(1, k + 1):
             if sheets and rng.random() < 0.2:
-                shapes.append("same-as-previous"); sheets.append((f"S{j}", [list(r) for r in sheets[-1][1]]))
+                shapes.append("same-as-previous"); sheets.append((f"S{j}", list(sheets[-1][1])))
                 continue
             sh, rows = gen_sheet(j, d_)
+            if rows and rng.random() < 0.5:      # number-rows/columns-repeated and row wrappers
+                rich = []
+                for r_ in rows:
+                    if rng.random() < 0.5:
+                        r_ = {"repeat": rng.choice([1, 1, 2, 3, 120]), "cells": [(rng.choice([1, 1, 2, 3, 150]), v) for v in r_]}
+                        if r_["repeat"] > 3 and any(v is not None for _, v in r_["cells"]):
+                            r_["repeat"] = 2
+                        r_["cells"] = [((rp_ if v is None or rp_ <= 3 else 2), v) for rp_, v in r_["cells"]]
+                    rich.append(r_)
+                if rng.random() < 0.5:
+                    cut = rng.randint(0, len(rich))
+                    rich = [("wrap", "table-header-rows", rich[:cut])] + [("wrap", "table-row-group", [("wrap", "table-rows", rich[cut:])])]
+                if rng.random() < 0.3:
+                    rich.append({"repeat": 1048000, "cells": [(1024, None)]})   # the usual trailing filler
+                rows, sh = rich, sh + "+repeats"
             shapes.append(sh); sheets.append((f"S{j}", rows))
         sdoc = make_ods(sheets).getvalue()
         rp = {"sheet_shapes": shapes, "sheets": sheets}
@@ -1373,6 +1642,9 @@ def run(ctx):
     ctx.trusted += [
         "G-dump: tools/props/c03.py prints str.isspace()/strip() set of the running CPython and ppt_extractor._TITLE_TYPES/"
         "_BODY_TYPES/PPT_TEXT_TYPE_NOTES as Coq literals",
+        "hand-written model coq/C03/Odf.v of odp_extractor._iter_slide_frames/_extract_slide (frame collection, position "
+        "sort, title/body/other) and ods_extractor._iter_sheet_rows/_extract_sheet (repeats, trimming, text), tied by an "
+        "ast shape inventory and by differential runs on fixtures and generated documents translated from the parsed XML",
         "hand-written models (coq/C03/Model.v, Extract.v, Docx.v) of data_types.py iterate_units/get_full_text per format, "
         "ppt_extractor._parse_slide_list_container/_build_slides_from_text_blocks/_parse_ppt_document, rtf flush_page, "
         "mbox _split_mbox_messages, DocxContent/DocContent/OdtContent.iterate_units (Docx.v, Sect.v) — tied by differential runs",
@@ -1383,7 +1655,9 @@ def run(ctx):
     ctx.assumptions += ["CPython 3.12 str.strip()/str.join semantics as modelled in C03/Lib.v (validated differentially)",
                         "extractors store slide/chapter numbers as modelled (pptx enumerate, epub spine counter)"]
     gen_tables(ctx)
-    ctx.prove("C03/Props.v", ["C03/ProofsX.vo", "C03/ProofsM.vo", "C03/ProofsS.vo", "C03/ProofsD.vo"], expected=[
+    ctx.prove("C03/Props.v", ["C03/ProofsX.vo", "C03/ProofsM.vo", "C03/ProofsS.vo", "C03/ProofsD.vo", "C03/ProofsO.vo"], expected=[
+        "C03_odp_slide_texts_exact", "C03_odp_unit_of_page", "C03_odp_read_numbers", "C03_odp_groups_transparent",
+        "C03_ods_sheet_cells_exact", "C03_ods_unit_of_sheet", "C03_ods_read_numbers",
         "C03_docx_sections_cover_partial", "C03_doc_numbers_strict", "C03_odt_numbers_strict", "C03_doc_body_lines_exact",
         "C03_odt_body_lines_exact", "C03_doc_sections_cover_refuted", "C03_odt_sections_cover_refuted",
         "C03_doc_sections_cover_partial", "C03_odt_sections_cover_partial",
@@ -1400,6 +1674,8 @@ def run(ctx):
     run_docx(ctx)
     run_doc(ctx)
     run_odt(ctx)
+    odf_inventory(ctx)
+    run_odf(ctx)
     run_end_to_end(ctx)
 
 
@@ -1414,6 +1690,10 @@ META = {
                   "PPT empty-slide dropping, RTF blank-page renumbering and DOCX section "
                   "coverage, each with the partial theorem under the narrowest hypothesis.  DOC/ODT heading sections: numbering, exact "
                   "body-line coverage, heading coverage refuted (empty sections) + partial; DOCX positive cover for clean documents.",
-    "level_note": "Trusted: Coq kernel+VM; the hand-written models (validated differentially on every run); regex engine, "
+    "level_note": "Outside the model (third-party / runtime, stated not skipped): XML parsing (ElementTree), "
+                  "_parse_odf_length_to_px float values (enter the ODP sort as order-isomorphic integers; NaN keys excluded), "
+                  "_get_text_recursive/_iter_paragraphs and _extract_cell_value (recorded), pypdf/openpyxl/xlrd readers, "
+                  "PPTX/EPUB/PDF XML-to-dataclass walkers (end-to-end generated documents only). "
+                  "Trusted: Coq kernel+VM; the hand-written models (validated differentially on every run); regex engine, "
                   "text decoding/cleaning, pypdf/openpyxl/xlrd as oracles.",
 }
